@@ -85,7 +85,13 @@ def csv_text(r):
                 row.append("".join(r.choice(['"', ",", "\n", "\r\n", " ", "a", "b", "'", ";", "\t", "é", "x"]) for _ in range(r.randint(0, 5))))
         rows.append(row)
     o = io.StringIO()
-    csv.writer(o).writerows(rows)
+    # every third table is written with every field quoted (quoting says nothing about the value: a quoted field may
+    # start or end with blanks, and those blanks are part of the value)
+    k = r.random()
+    if k < 0.33:
+        csv.writer(o, quoting=csv.QUOTE_ALL).writerows([[(" " * r.randint(0, 2)) + c + (" " * r.randint(0, 1)) for c in row] for row in rows])
+    else:
+        csv.writer(o).writerows(rows)
     return o.getvalue().encode()
 
 
